@@ -31,7 +31,8 @@ META = {
             'entries (complex: Gaussian integers with integer modulus), rows drawn from the modes normal / M-matrix / all-positive / '
             'mixed sign / diagonal-only / empty / missing diagonal / stored-zero diagonal / stored-zero off-diagonals, unsorted '
             'and (kernels only) duplicated entries; theta from {0,1/8,1/4,1/2,3/4,1} (exact ties are frequent) plus non-dyadic '
-            'thetas in the search; both norms (+fro), block on/off, float64/float32/complex128; parameter grids of the evolution, '
+            'thetas in the search; every family also badly scaled: global factor 2^-66, 2^-56, 2^-27, 2^27, 2^66 (and, in the search, '
+            '1e-20, 1e-17, 1e-8, 1e8, 1e20) and/or a factor 2^-80..2^80 per row (all values remain normal doubles); both norms (+fro), block on/off, float64/float32/complex128; parameter grids of the evolution, '
             'energy, distance, algebraic-distance and affinity measures; non-trivial = the matrix has an off-diagonal '
             'stored non-zero; distinct = distinct (operation, input, parameters)',
     'search_only': ['evolution (BSR input, epsilon = inf or not a power of two) and energy (BSR input, non-dyadic theta) measures: '
@@ -60,8 +61,11 @@ META = {
                     'exact-field model: theta*max and theta^2*|a_ii|*|a_jj| are compared in exact arithmetic; the generators '
                     'use dyadic data so that the binary64 kernels are exact too; the row scaling v*(1/max) is compared to 4 ulp, '
                     '"attains 1" is checked as |max - 1| <= 1e-12',
-                    'no subnormal entries (classical_public_contract needs tiny <= |v| for the non-zero entries); block-wise reduced '
-                    'values are >= 1e-16 in modulus or zero (strength.py zeroes smaller ones: `data[np.abs(data) < 1e-16] = 0`)',
+                    'no subnormal or overflowing values: generated magnitudes stay within 2^-150 .. 2^150 (float32: 2^-50 .. 2^50), so every '
+                    'non-zero entry, product and square the kernels form is a normal double (classical_public_contract needs tiny <= |v|); '
+                    'inputs with subnormal entries are NOT covered. The absolute 1e-16 drop of block-wise reduced values is no longer assumed '
+                    'away: it is modelled (dropSmall), exercised by the scaled BSR inputs and reported as finding classical-bsr-drop-below-1e-16',
+                    'decimal global factors (1e-20, ...) make the data non-dyadic: used in the search only, ties within 1e-9 relative are then skipped',
                     'explicitly stored zeros are not part of "the pattern" (of the input or of the output); duplicate entries: '
                     'kernels only (the entry-wise rule is not defined for them)',
                     'complex moduli are exact (Gaussian integers with integer modulus) in the correspondence; the model rejects other inputs',
@@ -77,6 +81,35 @@ DROP = Fr(1e-16)
 THETAS = [0.0, 0.125, 0.25, 0.5, 0.75, 1.0]
 UNITS = [1, -1, 1j, -1j, 3 + 4j, -4 + 3j, 4 - 3j, 5 + 12j, 6 + 8j, 8 - 15j]
 MAGS = [1, 1, 2, 2, 3, 4, 4, 6, 8]
+
+
+# global factors ~1e-20, 1e-17, 1e-8, 1e+8, 1e+20 as powers of two (the exact models stay exact) and as decimals (search only)
+SCALE_P2 = [2.0 ** -66, 2.0 ** -56, 2.0 ** -27, 2.0 ** 27, 2.0 ** 66]
+SCALE_DEC = [1e-20, 1e-17, 1e-8, 1e8, 1e20]
+
+
+def rescale(rng, A, exact=True, p_none=0.5):
+    """badly scaled variants of a CSR/BSR matrix: a global factor and/or a power-of-two factor 2^-80..2^80 per (nodal) row; every
+    value stays a normal double (|v| within 2^-150 .. 2^150).  exact=True uses powers of two only.  Returns (matrix, tag)."""
+    r = rng.random()
+    if r < p_none:
+        return A, 'scale:none'
+    single = A.dtype in (np.float32, np.complex64)
+    B = A.copy()
+    B.data = B.data.copy()
+    tag = []
+    if r < p_none + (1 - p_none) * 0.65:
+        pool = [2.0 ** -27, 2.0 ** 27] if single else (SCALE_P2 if exact else SCALE_P2 + SCALE_DEC)
+        g = pool[rng.integers(len(pool))]
+        B.data = B.data * B.data.dtype.type(g)
+        tag.append('global:%.0e' % g)
+    if r >= p_none + (1 - p_none) * 0.4:
+        nrow = len(B.indptr) - 1
+        k = rng.integers(-20, 21, size=nrow) if single else rng.integers(-80, 81, size=nrow)
+        f = np.repeat(2.0 ** k, np.diff(B.indptr))
+        B.data = B.data * (f.reshape((-1,) + (1,) * (B.data.ndim - 1))).astype(B.data.dtype)
+        tag.append('rows')
+    return B, 'scale:' + '+'.join(tag)
 
 
 def _lean(ctx, lines):
@@ -287,6 +320,8 @@ def part_a(ctx, count):
         cplx = kind.startswith('complex')
         rows, feats = gen_rows(rng, n, cplx)
         A = rows_to_csr(rows, np.dtype(kind), rng, unsorted=(t % 3 == 0), dup=(t % 7 == 0))
+        A, stag = rescale(rng, A, exact=True)
+        ctx.feat(stag.split(':')[0] + ':' + ('none' if stag.endswith('none') else 'yes') + ':kernels')
         th = float(THETAS[rng.integers(len(THETAS))])
         tiny = TINY[kind]
         nontriv = any(j != i and v != 0 for i, r in enumerate(rows) for j, v in r)
@@ -747,10 +782,8 @@ def _judge_family(ctx, A, api, norm='abs', block=True, thetas=THETAS, tag=''):
                 if bad and norm == 'min' and all(Rn[i, i] == 0 for i in bad):
                     # finding: the block-wise 'min' reduction of a diagonal block whose smallest entry is 0 gives 0
                     fk = 'classical-bsr-min-zero-block-minimum'
-                elif bad and all(Rd[i, i] == 0 for i in bad):
-                    fk = 'classical-bsr-drop-below-1e-16' if any(Rn[i, i] != 0 for i in bad) else None
-                    if norm == 'min' and all(Rn[i, i] == 0 or abs(Rn[i, i]) < 1e-16 for i in bad):
-                        fk = fk or 'classical-bsr-min-zero-block-minimum'
+                elif bad and all(Rd[i, i] == 0 for i in bad):        # reduced diagonal value non-zero but below 1e-16 (or 0 for 'min')
+                    fk = 'classical-bsr-drop-below-1e-16'
             viol(msg, fkey=fk)
         if D is None:
             return results
@@ -855,6 +888,8 @@ def part_b(ctx, count):
             cplx = fam == 'ccsr'
             rows, feats = gen_rows(rng, n, cplx)
             A = rows_to_csr(rows, complex if cplx else float, rng, unsorted=(t % 4 == 0))
+            A, stag = rescale(rng, A, exact=True)
+            ctx.feat(stag)
             if not A.has_sorted_indices and t % 8 == 0:
                 A = A.copy()
             for f in feats:
@@ -877,6 +912,8 @@ def part_b(ctx, count):
             N = int(rng.integers(1, 6))
             bs = int(rng.integers(1, 4))
             A, feats = gen_bsr(rng, N, bs)
+            A, stag = rescale(rng, A, exact=True)
+            ctx.feat(stag)
             for f in feats:
                 ctx.feat('bsr:' + f)
             tiny = TINY['float64']
@@ -982,6 +1019,8 @@ def other_case(rng, t):
         A.indices = A.indices.astype(np.int32)
     else:
         A = gen.int32csr(sp.csr_array(M))
+    A, stag = rescale(rng, A, exact=False)
+    feats.add(stag)
     p = {'npseed': int(rng.integers(2 ** 31))}
     if api == 'evolution':
         p.update(epsilon=float(rng.choice([1.0, 2.0, 4.0, 10.0, np.inf])), k=int(rng.choice([1, 2, 2, 3, 4, 5, 6, 8])),
@@ -1198,6 +1237,8 @@ def part_c(ctx, n_rule, n_other):
             n = int(rng.integers(1, 7))
             rows, feats = gen_rows(rng, n, False, modes=['normal', 'diag_only', 'empty', 'zero_diag', 'missing_diag', 'zero_offd', 'offd_only'])
             A = rows_to_csr(rows, float)
+        A, stag = rescale(rng, A, exact=False)
+        ctx.feat(stag)
         thetas = THETAS if sel != 2 else sorted(set([0.0, 0.1, 0.3, 1.0 / 3.0, 0.7, 0.9, 1.0] + [float(rng.random())]))
         cplx = _cplx(A)
         for norm in (('abs', 'fro') if (cplx and A.format == 'bsr') else ('abs',) if cplx else ('abs', 'min', 'fro') if (A.format == 'bsr' or sel in (3, 5)) else ('abs', 'min')):
@@ -1282,6 +1323,8 @@ def part_d(ctx, count):
                 k = int(rng.integers(n))
                 M[k, k] = 0
             A = gen.int32csr(sp.csr_array(M))
+            A, stag = rescale(rng, A, exact=False)
+            ctx.feat(stag)
             p = {'npseed': int(rng.integers(2 ** 31)), 'alpha': float(rng.choice([0.25, 0.5, 1.0])), 'R': int(rng.integers(1, 7)),
                  'k': int(rng.integers(1, 25)), 'epsilon': float(rng.choice([1.0, 2.0, 4.0]))}
             if api == 'algebraic':
